@@ -5,6 +5,7 @@ import json
 import os.path
 import random
 
+import c03_invisible
 import canon_common as cc
 import lib
 import norm_common as nc
@@ -263,6 +264,10 @@ def cases(rng, tier):
     for urls in CORPUS:
         for o in OPTS:
             yield _mk(urls=urls, o=o)
+    # invisible / control / white-space characters, raw and escaped, in every text component
+    # (characters from the regenerated classes: harness/c03_invisible.py)
+    for c in c03_invisible.cases(tier):
+        yield c
     c02 = sorted(urlgen.C02_TRANSFORMS)
     nts = sorted(N_TRANSFORMS)
     k = 0
@@ -553,7 +558,33 @@ def kf_protocol_lost(case, failure):
     return False
 
 
-KF_PREDICATES = [kf_redirect_hint, kf_platform_aware, kf_index_case, kf_quoted_raw_delim, kf_protocol_lost]
+def kf_host_trailing_space(case, failure):
+    """KF-C03-6 (the KF-C02-2 class seen from C03): the hostname — the one component canonicalize_url
+    does not unquote — ends with a raw white-space character of str.strip and nothing is printed after
+    it, so the canonical form ends with that character and the cleaning pass of the next call strips
+    it. Recognised: the canonical form of a string involved is `scheme://netloc` (no path, query,
+    fragment) with a netloc that str.strip() shortens. (White space at the end of any OTHER component
+    is not recognised: the safe unquoters must keep it escaped — strip_class_stays_escaped.)"""
+    from urllib.parse import urlsplit
+    from ural import canonicalize_url
+
+    t = _tail(failure)
+    if t["rel"] not in ("a", "c1", "c2"):
+        return False
+    for x in (t["u"], t["v"]):
+        if x is None:
+            continue
+        try:
+            c = canonicalize_url(x, quoted=t["quoted"])
+            sp = urlsplit(c)
+        except Exception:  # noqa
+            continue
+        if c != c.strip() and not sp.path and not sp.query and not sp.fragment and sp.netloc != sp.netloc.rstrip() and c.endswith(sp.netloc):
+            return True
+    return False
+
+
+KF_PREDICATES = [kf_host_trailing_space, kf_redirect_hint, kf_platform_aware, kf_index_case, kf_quoted_raw_delim, kf_protocol_lost]
 
 
 # ---------------------------------------------------------------------------------------
@@ -645,6 +676,8 @@ def nontrivial(case):
 
 def classify(case):
     labs = ["opts:pa=%d,ss=%d,quoted=%d" % (case["pa"], case["ss"], case["quoted"])]
+    if "inv" in case:
+        labs.append("inv:" + case["inv"])
     for r in case.get("recipes", []):
         labs += ["T=" + t for t in r]
     m = members(case)
